@@ -457,7 +457,7 @@ package fsm
 //@   loop 0 invariant rangeindex == -1 ==> ctx.batch == old(ctx.batch) && ctx.batch.vP == old(ctx.batch.vP) && ctx.batch.vV == old(ctx.batch.vV)
 //@   loop 0 invariant forall j int :: 0 <= j && j <= rangeindex ==> results[j] != nil
 //@   loop 0 step [C02.ops.read] typeIs(req[rangeindex+1].Request, *regattapb.RequestOp_RequestRange) ==> ctx.batch.vP == prev(ctx.batch.vP) && ctx.batch.vV == prev(ctx.batch.vV)
-//@   loop 0 step [C02.ops.readview] typeIs(req[rangeindex+1].Request, *regattapb.RequestOp_RequestRange) && isNilSlice(opRange(req[rangeindex+1]).RangeEnd) ==> respRange(results[rangeindex+1]).Count == (prev(ctx.batch.vP)[encK(1, bytesOf(opRange(req[rangeindex+1]).Key))] ? 1 : 0)
+//@   loop 0 step [C02.ops.readview+C03+C10] typeIs(req[rangeindex+1].Request, *regattapb.RequestOp_RequestRange) && isNilSlice(opRange(req[rangeindex+1]).RangeEnd) ==> respRange(results[rangeindex+1]).Count == (prev(ctx.batch.vP)[encK(1, bytesOf(opRange(req[rangeindex+1]).Key))] ? 1 : 0)
 //@   loop 0 step [C02.ops.put] typeIs(req[rangeindex+1].Request, *regattapb.RequestOp_RequestPut) ==> forall k Bytes :: ctx.batch.vP[k] == (k == encK(1, bytesOf(opPut(req[rangeindex+1]).Key)) ? true : prev(ctx.batch.vP)[k]) && ctx.batch.vV[k] == (k == encK(1, bytesOf(opPut(req[rangeindex+1]).Key)) ? bytesOf(opPut(req[rangeindex+1]).Value) : prev(ctx.batch.vV)[k])
 //@   loop 0 step [C02.ops.del] typeIs(req[rangeindex+1].Request, *regattapb.RequestOp_RequestDeleteRange) && isNilSlice(opDel(req[rangeindex+1]).RangeEnd) ==> forall k Bytes :: ctx.batch.vP[k] == (k == encK(1, bytesOf(opDel(req[rangeindex+1]).Key)) ? false : prev(ctx.batch.vP)[k])
 
@@ -746,13 +746,13 @@ package fsm
 //@   params s, ctx, w, stopc
 //@   results err
 //@   requires s != nil && s.fsm != nil && s.fsm.log != nil && w != nil && typeIs(ctx, *snapshotContext) && asType(ctx, *snapshotContext) != nil && asType(ctx, *snapshotContext).Snapshot != nil
-//@   before pebble.(*DB).NewIter assert [C08.save.pit] false
-//@   ensures [C08.save.all] err == nil ==> world.nset - old(world.nset) == cnt(asType(ctx, *snapshotContext).Snapshot.vP, bytes_empty(), Btop())
+//@   before pebble.(*DB).NewIter assert [C08.save.pit+C03] false
+//@   ensures [C08.save.all+C03] err == nil ==> world.nset - old(world.nset) == cnt(asType(ctx, *snapshotContext).Snapshot.vP, bytes_empty(), Btop())
 //@   modifies world.nset, world.lastKey, world.lastVal, family(G_any_sdata), family(G_any_slen), w.nmsg, w.msg, w.fmtByte, allfields(bytes.Buffer)
 //@   loop 0 invariant iter != nil && fresh(iter) && iter.bounded && iter.vP == asType(ctx, *snapshotContext).Snapshot.vP && iter.vV == asType(ctx, *snapshotContext).Snapshot.vV && iter.lo == bytes_empty() && iter.hi == Btop()
 //@   loop 0 invariant 0 <= iter.pos && iter.pos <= cnt(iter.vP, iter.lo, iter.hi) && iter.onKey == (iter.pos < cnt(iter.vP, iter.lo, iter.hi)) && (iter.onKey ==> iter.cur == nth(iter.vP, iter.lo, iter.hi, iter.pos))
 //@   loop 0 invariant world.nset - old(world.nset) == iter.pos && sstWriter != nil && memfile != nil && fresh(memfile)
-//@   loop 0 step [C08.save.step] iter.pos == prev(iter.pos) + 1 && world.nset == prev(world.nset) + 1 && world.lastKey == prev(iter.cur) && world.lastVal == iter.vV[prev(iter.cur)]
+//@   loop 0 step [C08.save.step+C03] iter.pos == prev(iter.pos) + 1 && world.nset == prev(world.nset) + 1 && world.lastKey == prev(iter.cur) && world.lastVal == iter.vV[prev(iter.cur)]
 
 // ---- installing a snapshot: build a new DB directory, switch `current` durably, swap, clean up
 
